@@ -10,6 +10,7 @@ import random
 from io import StringIO
 import copy
 from bisect import bisect_right, bisect_left
+from numbers import Integral
 
 import networkx
 
@@ -232,7 +233,8 @@ class Graph(BaseGraph):
             self.name = name
 
     def add_edge(self, u, v):
-        if not (1 <= u <= self.n and 1 <= v <= self.n and u != v):
+        if not (isinstance(u, Integral) and isinstance(v, Integral)
+                and 1 <= u <= self.n and 1 <= v <= self.n and u != v):
             raise ValueError(
                 "u,v must be distinct, between 1 and the number of nodes")
         if (u, v) in self.edgeset:
@@ -410,7 +412,8 @@ edges can be added and not removed."""
             self.name = name
 
     def add_edge(self, src, dest):
-        if not (1 <= src <= self.n and 1 <= dest <= self.n):
+        if not (isinstance(src, Integral) and isinstance(dest, Integral)
+                and 1 <= src <= self.n and 1 <= dest <= self.n):
             raise ValueError(
                 "u,v must be distinct, between 1 and the number of nodes")
         if self.has_edge(src, dest):
@@ -622,7 +625,8 @@ class BipartiteGraph(BaseBipartiteGraph):
         >>> G.right_neighbors(2)
         [2, 3]
         """
-        if not (1 <= u <= self.lorder and 1 <= v <= self.rorder):
+        if not (isinstance(u, Integral) and isinstance(v, Integral)
+                and 1 <= u <= self.lorder and 1 <= v <= self.rorder):
             raise ValueError("Invalid choice of vertices")
 
         if (u, v) in self.edgeset:
